@@ -170,12 +170,24 @@ func cmdVF(args []string) int {
 				}
 				if *verbose || a.status != "unsat" {
 					fmt.Printf("   %-8s %s  (%d inst, %.2fs, %s)\n", a.status, name, a.n, a.time, a.solver)
+					if a.status == "error" && a.witness != nil {
+						for sv, out := range a.witness.Result.Raw {
+							fmt.Println("      solver error:", sv, truncate(out, 300))
+						}
+					}
 					if a.status == "sat" && a.witness != nil {
 						fmt.Println("      path:", a.witness.Path)
 						fmt.Println("      goal:", truncate(a.witness.Goal, 400))
 						if *verbose {
 							fmt.Println("      model:", truncate(a.witness.Result.Model, 1500))
 						}
+					}
+				}
+			}
+			if *verbose {
+				for _, o := range rep.Obls {
+					if o.Result.Status != "unsat" {
+						fmt.Printf("   FAIL %s [%s] path %s\n", o.Name, o.Result.Status, o.Path)
 					}
 				}
 			}
@@ -210,7 +222,7 @@ type aggObl struct {
 // aggregate combines the path instances of each named obligation.
 func aggregate(obls []*Obligation) map[string]*aggObl {
 	m := map[string]*aggObl{}
-	rank := map[string]int{"unsat": 0, "unknown": 1, "timeout": 1, "error": 2, "sat": 3, "": 1}
+	rank := map[string]int{"unsat": 0, "unknown": 1, "timeout": 1, "error": 4, "sat": 3, "": 1}
 	for _, o := range obls {
 		a := m[o.Name]
 		if a == nil {
